@@ -73,6 +73,19 @@ func planFor(prop string) staticPlan {
 	return p
 }
 
+// matrixFor selects the deterministic matrix trees a property's check includes.
+func matrixFor(prop string) []string {
+	switch prop {
+	case "C01":
+		return gen.MatrixKinds
+	case "C12":
+		return []string{"reserved", "numbered", "derived"}
+	case "C13":
+		return []string{"initialisms", "derived", "numbered"}
+	}
+	return nil
+}
+
 type job struct {
 	c    *gen.Case
 	lt   *ostatic.Tree
@@ -182,6 +195,23 @@ func runStatic(prop, tier string) int {
 		for _, c := range gen.Cases(t, rng, plan.opts) {
 			jobs = append(jobs, job{c: c, lt: ld.lt, dir: ld.dir})
 		}
+	}
+	// deterministic matrices: finite sub-spaces enumerated completely on every run
+	for mi, kind := range matrixFor(prop) {
+		t := gen.NewMatrixTree(kind, hz)
+		ld, err := prepTree(work, t, 1000+mi)
+		if err != nil {
+			fmt.Println("INCONCLUSIVE (generator):", err)
+			run.Inconc("matrix tree does not load")
+			continue
+		}
+		rng := rand.New(rand.NewSource(seed + int64(mi)))
+		mo := plan.opts
+		mo.PerIface, mo.Multi = 2, 0
+		for _, c := range gen.Cases(t, rng, mo) {
+			jobs = append(jobs, job{c: c, lt: ld.lt, dir: ld.dir})
+		}
+		run.Add("matrix_trees", 1)
 	}
 	profCount := map[string]int{}
 	configs := map[string]bool{}
